@@ -108,6 +108,10 @@ struct Run {
 	handle: StaticSoundHandle,
 	cfg: Cfg,
 	// --- oracle bookkeeping ---
+	/// `num_frames()`, `duration()` and `frame_at_index()` of the data agreed with the clamped slice
+	slice_consistent: bool,
+	/// an empty sound, or one that starts at or past its end: every output frame is silence
+	mute: bool,
 	/// index-coded, neutral, rate ±1: the heard index sequence is predictable
 	plain: bool,
 	/// next expected heard index (`None` = the walk has ended: silence)
@@ -233,10 +237,18 @@ fn make(tok: &[&str], ids: &Ids) -> Run {
 		data = data.slice(parse_region(s));
 	}
 	let data_slice_none = data.slice.is_none();
+	// the sound is the slice clamped to the data: an inverted slice, or one that starts at or past the end
+	// of the data, is empty (computed here from the inputs, not read back from kira)
 	let (slice_start, n) = match data.slice {
-		Some((a, b)) => (a, b.saturating_sub(a)),
+		Some((a, b)) => (a, b.min(len).saturating_sub(a)),
 		None => (0, len),
 	};
+	// --- C04: num_frames / duration / frame_at_index agree with the clamped slice, for any slice ---
+	let slice_consistent = data.num_frames() == n
+		&& data.duration() == Duration::from_secs_f64(n as f64 / sr as f64)
+		&& (n == 0 || (data.frame_at_index(0) == Some(data.frames[slice_start]) && data.frame_at_index(n - 1) == Some(data.frames[slice_start + n - 1])))
+		&& data.frame_at_index(n).is_none()
+		&& data.frame_at_index(usize::MAX).is_none();
 	let lp = loop_region
 		.map(|r| region_samples(r, sr, n))
 		.filter(|(a, b)| a < b && *b <= n);
@@ -267,16 +279,13 @@ fn make(tok: &[&str], ids: &Ids) -> Run {
 	let plain = neutral
 		&& (cfg.coding == "idx" || cfg.coding == "lr")
 		&& matches!(rate_fixed, Some(r) if r == 1.0 || r == -1.0)
-		&& (loop_region.is_none() || lp.is_some())
-		&& match data.slice {
-			Some((a, b)) => a <= b && b <= len,
-			None => true,
-		};
+		&& (loop_region.is_none() || lp.is_some());
 	let backwards = reverse != (rate_fixed.map(|r| r.is_sign_negative()).unwrap_or(false));
 	let _ = backwards;
 	let expect = if reverse {
-		if start_idx < n {
-			Some(n - 1 - start_idx)
+		// a start position at or past the end of a reversed sound saturates at frame 0
+		if n > 0 {
+			Some((n - 1).saturating_sub(start_idx))
 		} else {
 			None
 		}
@@ -286,10 +295,15 @@ fn make(tok: &[&str], ids: &Ids) -> Run {
 		None
 	};
 	let plain = plain && expect.is_some();
+	// nothing to play: an empty sound, or a forward sound (no loop) that starts at or past its end
+	let mute = n == 0
+		|| (loop_region.is_none() && !reverse && start_idx >= n && matches!(rate_fixed, Some(r) if !r.is_sign_negative()));
 	let (sound, handle) = data.into_sound().unwrap();
 	Run {
 		sound,
 		handle,
+		slice_consistent,
+		mute,
 		plain,
 		expect,
 		suspend: 0,
@@ -343,6 +357,9 @@ fn exec(case: &[String], out: &mut Out) {
 				out.put(show(&r));
 				if state_num(r.handle.state()) != 0 {
 					out.oracle_fail("static_new_not_playing", l);
+				}
+				if !r.slice_consistent {
+					out.oracle_fail("static_slice_inconsistent", l);
 				}
 				run = Some(r);
 				continue;
@@ -482,6 +499,10 @@ fn exec(case: &[String], out: &mut Out) {
 				out.put(s);
 				let s_after = state_num(r.handle.state());
 				let all_zero = buf.iter().all(|f| f.left == 0.0 && f.right == 0.0);
+				// --- C04: nothing to play (empty slice / start past the end): silence, whatever the commands ---
+				if r.mute && !all_zero {
+					out.oracle_fail("static_nothing_to_play_not_silent", l);
+				}
 				// --- C03 oracles ---
 				if !(update_edge(s_before, s_after) || s_after == 6) {
 					out.oracle_fail("static_update_edge", l);
@@ -780,7 +801,7 @@ fn fault_oracles(ops: &[String], trace: &[String]) -> Vec<(usize, String)> {
 					None
 				};
 				n = match slice {
-					Some((a, b)) => b.saturating_sub(a),
+					Some((a, b)) => b.min(len).saturating_sub(a),
 					None => len,
 				};
 				shape = match slice {
@@ -947,11 +968,48 @@ pub(crate) fn gen_shape(rng: &mut Rng) -> Shape {
 	let n = slice.map(|(a, b)| b - a).unwrap_or(len);
 	Shape { sr, len, slice, n }
 }
+/// a shape whose slice is ANY pair: inside the data (as `gen_shape`), reaching past the data, starting
+/// at or past its end, inverted, empty — `num_frames` is the slice clamped to the data
+pub(crate) fn gen_shape_any(rng: &mut Rng, stats: &mut Stats) -> Shape {
+	let mut sh = gen_shape(rng);
+	let len = sh.len;
+	let kind = rng.below(12);
+	let slice = match kind {
+		0 => {
+			stats.hit("slice_past_data");
+			let a = rng.below(len + 1);
+			Some((a, len + 1 + rng.below(4)))
+		}
+		1 => {
+			stats.hit("slice_past_data");
+			Some((0, rng.pick(&[len + 1, 2 * len + 3, u32::MAX as u64, u64::MAX])))
+		}
+		2 => {
+			stats.hit("slice_starts_past_data");
+			let a = len + rng.below(3);
+			Some((a, a + rng.below(4)))
+		}
+		3 => {
+			stats.hit("slice_inverted");
+			let a = 1 + rng.below(len + 2);
+			Some((a, rng.below(a)))
+		}
+		4 => {
+			stats.hit("slice_empty");
+			let a = rng.below(len + 2);
+			Some((a, a))
+		}
+		_ => return sh,
+	};
+	sh.slice = slice;
+	sh.n = slice.map(|(a, b)| b.min(len).saturating_sub(a)).unwrap_or(len);
+	sh
+}
 pub(crate) fn fmt_slice(rng: &mut Rng, sh: &Shape) -> String {
 	match sh.slice {
 		None => "none".to_string(),
 		Some((a, b)) => {
-			if rng.chance(1, 4) {
+			if rng.chance(1, 4) && b <= (1 << 20) {
 				// through `StaticSoundData::slice` (seconds or samples)
 				format!("reg={}", fmt_region(rng, a, b, sh.len, sh.sr))
 			} else {
@@ -985,7 +1043,7 @@ pub(crate) fn gen_dt(rng: &mut Rng, sr: u64) -> f64 {
 }
 
 fn gen_case(rng: &mut Rng, out: &mut Vec<String>, stats: &mut Stats) {
-	let mut sh = gen_shape(rng);
+	let mut sh = gen_shape_any(rng, stats);
 	let kind = rng.below(11);
 	// kind 10: an index ramp played forwards at rate 1/2 or 1/4 (exact interpolation)
 	let ramp = kind == 10;
@@ -1015,9 +1073,18 @@ fn gen_case(rng: &mut Rng, out: &mut Vec<String>, stats: &mut Stats) {
 	};
 	let dt = if plain || dc || ramp { 1.0 / sr as f64 } else { gen_dt(rng, sr) };
 	let chunk_secs = dt * 8.0;
-	let reverse = n > 0 && !ramp && rng.chance(3, 10);
+	let reverse = !ramp && rng.chance(3, 10);
 	let start = if reverse {
-		rng.below(n)
+		// at or past the end (always so for an empty sound): the start frame saturates at 0
+		let st = match rng.below(8) {
+			0 => n,
+			1 => n + 1 + rng.below(3),
+			_ => rng.below(n + 1),
+		};
+		if st >= n {
+			stats.hit("reverse_start_ge_len");
+		}
+		st
 	} else if dc || ramp {
 		0
 	} else {
@@ -1149,7 +1216,8 @@ fn gen_exhaustive_walks(out: &mut Vec<String>, case: &mut usize, stats: &mut Sta
 		}
 		for region in &regions {
 			for reverse in 0..2u8 {
-				let starts = if reverse == 1 { len } else { len + 2 };
+				// reversed too: start positions at and past the end (the start frame saturates at 0)
+				let starts = len + 2;
 				for start in 0..starts {
 					for (rate, stretch) in rates {
 						out.push(format!("case {}", *case));
@@ -1174,6 +1242,48 @@ fn gen_exhaustive_walks(out: &mut Vec<String>, case: &mut usize, stats: &mut Sta
 							out.push(format!("proc {} {}", chunk, o64(1.0)));
 							done += chunk;
 							stats.add("exhaustive_ops", 2);
+						}
+					}
+				}
+			}
+		}
+	}
+}
+
+/// thorough tier, C04: every length ≤ 4 × EVERY slice (a, b) with a, b ≤ length + 2 (inside the data,
+/// reaching past it, starting past it, inverted, empty) × start × direction × rate ±1, played to the end
+fn gen_exhaustive_slices(out: &mut Vec<String>, case: &mut usize, stats: &mut Stats) {
+	for len in 0..=4u64 {
+		for a in 0..=len + 2 {
+			for b in 0..=len + 2 {
+				let n = b.min(len).saturating_sub(a);
+				for reverse in 0..2u8 {
+					for start in 0..n + 2 {
+						for rate in [1.0f64, -1.0] {
+							out.push(format!("case {}", *case));
+							*case += 1;
+							out.push(format!(
+								"new 1 {} idx raw={},{} imm n={} none {} fix:{} fix:{} fix:{} none",
+								len,
+								a,
+								b,
+								start,
+								reverse,
+								o32(0.0),
+								o64(rate),
+								o32(0.0)
+							));
+							let total = n + 8;
+							let mut done = 0;
+							let mut k = 0;
+							while done < total {
+								let chunk = [1u64, 3, 2, 4][k % 4];
+								k += 1;
+								out.push("start".to_string());
+								out.push(format!("proc {} {}", chunk, o64(1.0)));
+								done += chunk;
+								stats.add("exhaustive_ops", 2);
+							}
 						}
 					}
 				}
@@ -1232,6 +1342,7 @@ pub fn gen(rng: &mut Rng, n: usize, thorough: bool, stats: &mut Stats) -> Vec<St
 	let mut case = 0;
 	if thorough {
 		gen_exhaustive_walks(&mut out, &mut case, stats);
+		gen_exhaustive_slices(&mut out, &mut case, stats);
 		gen_exhaustive_lifecycle(&mut out, &mut case, stats);
 	}
 	for _ in 0..n {
@@ -1242,11 +1353,13 @@ pub fn gen(rng: &mut Rng, n: usize, thorough: bool, stats: &mut Stats) -> Vec<St
 	out
 }
 
-/// suite `static_ood`: inputs outside the domain of the C04 theorems, on purpose (each is a defect
-/// candidate of C01): degenerate loop regions, reverse with start ≥ length, slices outside the data.
+/// suite `static_ood`: inputs outside the hypotheses of the C04 theorems that are left, on purpose: loop regions
+/// that are empty, inverted (both dropped by `Transport::new` / `set_loop_region` since the repair) or reach
+/// past the end of the sound (`ValidLoop` asks for `end ≤ num_frames`).  None of them faults; the twin follows
+/// them bit for bit.  (Reversed sounds starting at or past their end, slices past the data and inverted slices
+/// used to be here: they are repaired and are generated regularly by suite `static`.)
 pub fn gen_ood(rng: &mut Rng, n: usize, _thorough: bool, stats: &mut Stats) -> Vec<String> {
 	let mut out = vec![];
-	let mut hang_budget = 2;
 	for case in 0..n {
 		out.push(format!("case {}", case));
 		let len = 2 + rng.below(10);
@@ -1254,14 +1367,10 @@ pub fn gen_ood(rng: &mut Rng, n: usize, _thorough: bool, stats: &mut Stats) -> V
 		let dt = 1.0 / sr as f64;
 		let z32 = o32(0.0);
 		let one = o64(1.0);
-		let mut kind = rng.below(7);
-		if (kind == 0 || kind == 5) && hang_budget == 0 {
-			kind = 1;
-		}
+		let kind = rng.below(6);
 		let mut later: Option<String> = None;
 		let new = match kind {
 			0 => {
-				hang_budget -= 1;
 				stats.hit("ood_loop_empty");
 				let a = rng.below(len);
 				format!("new {} {} idx none imm n=0 n={}~n={} 0 fix:{} fix:{} fix:{} none", sr, len, a, a, z32, one, z32)
@@ -1272,21 +1381,27 @@ pub fn gen_ood(rng: &mut Rng, n: usize, _thorough: bool, stats: &mut Stats) -> V
 				format!("new {} {} idx none imm n=0 n={}~n={} 0 fix:{} fix:{} fix:{} none", sr, len, a, rng.below(a), z32, one, z32)
 			}
 			2 => {
-				stats.hit("ood_reverse_start_ge_len");
-				format!("new {} {} idx none imm n={} none 1 fix:{} fix:{} fix:{} none", sr, len, len + rng.below(3), z32, one, z32)
+				stats.hit("ood_loop_end_past_end");
+				let a = rng.below(len);
+				format!(
+					"new {} {} idx none imm n=0 n={}~n={} {} fix:{} fix:{} fix:{} none",
+					sr,
+					len,
+					a,
+					len + 1 + rng.below(4),
+					rng.below(2),
+					z32,
+					one,
+					z32
+				)
 			}
 			3 => {
-				stats.hit("ood_slice_outside_data");
+				stats.hit("ood_loop_command_end_past_end");
 				let a = rng.below(len);
-				format!("new {} {} idx raw={},{} imm n=0 none 0 fix:{} fix:{} fix:{} none", sr, len, a, len + 1 + rng.below(4), z32, one, z32)
+				later = Some(format!("loop n={}~n={}", a, len + 1 + rng.below(4)));
+				format!("new {} {} idx none imm n=0 n=0~n={} 0 fix:{} fix:{} fix:{} none", sr, len, len, z32, one, z32)
 			}
 			4 => {
-				stats.hit("ood_slice_inverted");
-				let a = 1 + rng.below(len);
-				format!("new {} {} idx raw={},{} imm n=0 none 0 fix:{} fix:{} fix:{} none", sr, len, a, rng.below(a), z32, one, z32)
-			}
-			5 => {
-				hang_budget -= 1;
 				stats.hit("ood_loop_command_empty");
 				let a = rng.below(len);
 				later = Some(format!("loop n={}~n={}", a, a));
